@@ -378,8 +378,9 @@ def dump_files(chdir):
             attrs = {k: (v.item() if hasattr(v, "item") and np.ndim(v) == 0 else
                          (v[0].item() if hasattr(v, "__len__") and len(v) == 1 and hasattr(v[0], "item") else v))
                      for k, v in ds.attrs.items()}
+            atypes = {k: (v.dtype.str if hasattr(v, "dtype") else type(v).__name__) for k, v in ds.attrs.items()}
             idx = h["rf_data_index"][...] if "rf_data_index" in h else np.zeros((0, 2), dtype=np.uint64)
-        files.append(dict(path=f, subdir=os.path.basename(os.path.dirname(f)), name=os.path.basename(f),
+        files.append(dict(atypes=atypes, path=f, subdir=os.path.basename(os.path.dirname(f)), name=os.path.basename(f),
                           ms=int(m.group(2)) * 1000 + int(m.group(3)), tmp=bool(m.group(1)),
                           rows=[(int(r[0]), int(r[1])) for r in idx], data=data, attrs=attrs))
     files.sort(key=lambda x: x["ms"])
